@@ -412,6 +412,8 @@ class SeriesOps:
         if short in ("ceil", "floor", "trunc") and name.split(".")[0] in ("np", "math"):
             t = M.as_ser_term(a0)
             return a0.with_term((short, t)) if isinstance(a0, Ser) else (short, t)
+        if name in ("np.array", "np.asarray", "numpy.array", "numpy.asarray") and len(pos) == 1 and not kw and not isinstance(a0, (Ser, Frame)):
+            return a0 if isinstance(a0, (list, tuple)) else to_term(a0)          # an array holding the same elements in the same order
         if name in ("np.unique",):
             return ("unique", M.as_ser_term(a0), a0.ctx if isinstance(a0, Ser) else None)
         if name in ("np.isnan",):
